@@ -169,11 +169,11 @@ func main() {
 	}
 
 	maxLen, fileLen := 3, 2
-	lifeDepth := 6
+	lifeDepth := 7
 	totalBudget = 50 * time.Second
 	if r.Thorough() {
 		maxLen, fileLen = 4, 3
-		lifeDepth = 8
+		lifeDepth = 9
 		totalBudget = 13 * time.Minute
 	}
 	if s := os.Getenv("VERIF_C15_BUDGET_S"); s != "" {
